@@ -18,10 +18,10 @@ func runC01(ctx *Ctx) {
 	if codec == nil {
 		return
 	}
-	bound := 1
+	bound := 2
 	budget := 80 * time.Second
 	if ctx.Thorough {
-		bound = 2
+		bound = 3
 		budget = 14 * time.Minute
 	}
 	st := newN2stats()
